@@ -20,6 +20,10 @@ P = {
     technique="history monitor (per-connection callback log with inside-counter, self-describing streams / numbered datagrams compared at quiescence) + read stuck-state predicate (FIONREAD, read-event counter, CPU idle) + CPU-time spin monitor over the configuration matrix",
     text="Runs the real engine over the enumerated product transport x epoll mode x sync/async x executor and sampled poller count, read-buffer size, per-loop read limit and peer patterns, with seeded delays at the async-read hand-over, and decides delivery (exactly once, in order, right connection, datagram boundaries) at quiescence, non-delivery by a stable stuck-state and idle spinning by CPU time. Exploration: schedules and configurations are sampled.",
     note=TB + " One known finding (half-close with unread data) is listed in known_findings.json."),
+ "C03": dict(level="exploration", ref="4/C03",
+    technique="history monitor over open/close notifications, dial callbacks and post-Close operation results (one logical clock); fd-reuse victim socket as kernel-level oracle; quiescence-decided completeness; seeded delay points",
+    text="Creates connections by accept, AddConn and DialAsync and ends each by a seeded scenario (peer close/reset, Close, CloseWithError, 2-8 concurrent closers during traffic, deadline, overflow, Close inside OnOpen, Stop); exactly one close notification after the open one with the first cause as error, closed indication and an untouched descriptor after Close returned, and DialAsync outcomes checked against harness listeners with known fate (accepted, refused, accept-queue full, missing path).",
+    note=TB),
  "C04": dict(level="fault_enumeration", ref="4/C04",
     technique="bounded-progress monitor: backlog created from a chosen origin, then 'complete (C01 stream oracle) or stable write stuck-state' (backlog accessor > 0, poll(POLLOUT) writable, peer FIONREAD 0, idle CPU, control connection on the same poller answering) on real sockets and under the syscall shim",
     text="Creates a backlog from every origin the statement names (OnOpen before registration, the registration gap via a delay point, OnData, foreign goroutine, timer, another connection's OnClose) in every transport and epoll mode, then lets the peer read and makes no further call; liveness is restated as bounded progress and decided by a stable stuck-state predicate, never by elapsed time alone." + SHIM,
@@ -36,9 +40,25 @@ P = {
     technique="robustness monitors on random/mutated/attack inputs: captured recover() log lines, events-after-error, tracking allocators for carry-over and body bounds, framing-attack corpus, CPU-time hang detector",
     text="Feeds random bytes, mutated valid messages and a framing-attack corpus in random segmentations under several ReadLimit/MaxHTTPBodySize settings; no recovered panic, nothing after the first error, retained bytes and body bytes within the configured bounds, malformed framing never yields a message.",
     note=TB),
+ "C12": dict(level="exploration", ref="4/C12",
+    technique="reference-codec monitor (independent RFC 6455/7692 implementation in internal/wsref): nbio sender -> reference decoder, reference encoder -> arbitrary segmentation -> nbio receiver, nbio <-> nbio",
+    text="Messages of every length class, both roles, compression off and all levels, frame-size limits 1..32768, reference-side fragmentation with interleaved control frames and all single-cut/byte-wise/random segmentations are round-tripped; delivered (type,payload) sequences must equal the sent ones and the wire must obey masking/fragment-size/RSV1 rules.",
+    note=TB + " internal/wsref is the trusted reference codec (unit-tested, UTF-8 validator cross-checked against unicode/utf8)."),
+ "C13": dict(level="exploration", ref="4/C13",
+    technique="reference-validator monitor: exhaustive single-frame header space in three contexts, all 65536 close codes, UTF-8 classes split at every byte, random valid/invalid sequences under random segmentation, decided against the RFC 6455 sequence validator in internal/wsref",
+    text="The reference validator classifies every generated frame sequence as valid or 'must fail at frame k'; nbio must deliver exactly the reference's messages for valid ones, fail the connection no later than the end of the message containing frame k and never deliver that message for invalid ones; ping => identical pong, close => close. The single-frame header space and the close-code space are enumerated completely on every run.",
+    note=TB + " Unasserted classes are listed in DESIGN.md (mask bit vs role on receipt, RSV1 on non-first frames under compression, codes 1012-1014, which code accompanies a failure)."),
+ "C15": dict(level="exploration", ref="4/C15",
+    technique="boundary monitor with a tracking allocator: messages at limit-1/limit/limit+1 as one frame, fragments and deflate bombs; peak live bytes per connection and input-cache bound measured through BodyAllocator",
+    text="For limits 1..100000 messages straddling the limit are sent in one frame, 2-5 fragments and as compressed frames inflating to limit-1, limit, limit+1, +24, 10x, 1000x, with pooled and size-aligned allocators and random segmentation: nothing above the limit is delivered, the connection is failed with 1009, <= limit is delivered, control frames > 125 refused on send and receive, buffered bytes stay within the stated bound.",
+    note=TB),
  "C17": dict(level="fault_enumeration", ref="4/C17",
     technique="model-based monitor: exact backlog model (accepted - bytes the shimmed kernel took) vs. accessor snapshots under the connection mutex after every call; writes placed at the bound; real-socket phase with a paused peer",
     text="With the syscall shim giving the kernel room for exactly Budget bytes the true backlog is known, so writes are placed below, at and one byte above MaxWriteBufferSize across 40-300 fill/drain cycles per connection; counter == queued bytes == model, <= max, overflow only when it would exceed (and then the connection closes with ErrOverflow), fitting writes always accepted, full budget back after a drain; stream content re-checked with the C01 oracle.",
+    note=TB),
+ "C18": dict(level="exploration", ref="4/C18",
+    technique="resource monitors around Start/Stop cycles in a long-lived process: hang predicate (h.Guard), opens == closes at Stop return, client-side close/reset observation with kernel-level probe, goroutine-stack and /proc/self/fd baselines with settle loop, per-shard slope",
+    text="Each case runs one Start -> history -> Stop/Shutdown cycle of a core engine (tcp/unix/udp x epoll mode; backlogs, pending deadlines, dials still connecting, concurrent closers, clients connecting during Stop, delay points) or an HTTP engine (three I/O modes x plain/TLS, keep-alive, idle and WebSocket connections) and checks that Stop returns, every notification was delivered, every client connection was closed, and goroutines/descriptors return to the baseline.",
     note=TB),
  "C20": dict(level="exploration", ref="4/C20",
     technique="reference-model monitor (shadow copies) + pairwise-disjointness sweeps over random allocator programs; race detector with //go:norace stripped (thorough)",
